@@ -116,6 +116,24 @@ def F25():
     d = pd.DataFrame({"x": [0.0, 1, 2, 3, 4, np.nan]})
     m = model_matrix("0 + bs(x, degree=0, df=3)", d, na_action="ignore", context={})
     return not np.isnan(m.values[-1]).all()
+def F32():
+    import pickle, subprocess
+    m = model_matrix("a + b + a:b", df, context={})
+    blob = pickle.dumps(m.model_spec).hex()
+    code = ("import sys,pickle; sys.path.insert(0, %r); ms = pickle.loads(bytes.fromhex(%r)); "
+            "print('SUB', ms.subset('a + a:b').column_names, ms.term_indices['a:b'])" % (os.environ.get("REPO", "/repo"), blob))
+    p = subprocess.run([sys.executable, "-W", "ignore", "-c", code], env=dict(os.environ, PYTHONHASHSEED="12345"), capture_output=True, text=True)
+    return "SUB ('Intercept', 'a', 'a:b') [3]" not in p.stdout
+def F33():
+    m = model_matrix("A + a | A:a + a", df, context={})
+    new = df.iloc[:2].copy()
+    got = m[1].model_spec.get_model_matrix(new, context={})
+    return "A" not in m[1].model_spec.encoder_state or not np.allclose(got.values, m[1].values[:2])
+def F34():
+    d = pd.DataFrame({"my col": [1.0, 2, 3, 6], "my_col": [4.0, 5, 6, 7]})
+    m = model_matrix("center(`my col`) + my_col", d, context={})
+    got = m.model_spec.get_model_matrix(d.iloc[:1], context={})
+    return not np.allclose(got.values, m.values[:1])
 
 ids = sys.argv[1:] or [f"F{i}" for i in range(1, 26)]
 for i in ids:
